@@ -3,8 +3,7 @@
   pairs, written at the level of properties.jsonl.  It never looks at the model's state: what it knows
   it has read off the trace itself — the state, acknowledgement and comments at the previous look, and
   the expiry *that the accepted acknowledge operation asked for*.  The driver evaluates it on the
-  implementation's trace; IcingaProofs/C06.lean shows that every trace of the model satisfies it
-  (up to the known finding F-C06a).
+  implementation's trace; IcingaProofs/C06.lean shows that every trace of the model satisfies it.
 
   Sentences of the property and the clauses that state them:
 
